@@ -302,205 +302,254 @@ def gen_lean():
     res = ast.parse(open(os.path.join(base, "residues.py")).read())
     cha = ast.parse(open(os.path.join(base, "chains.py")).read())
     seg = ast.parse(open(os.path.join(base, "segments.py")).read())
-
-    # residues: the mask that is turned into indices is a union of change masks
-    f = _func(res, "get_residue_starts")
-    fields = _change_fields(f)
-    union = None
-    for node in ast.walk(f):
-        if isinstance(node, ast.Assign) and isinstance(node.value, ast.BinOp) and isinstance(node.value.op, ast.BitOr):
-            union = [fields[n] for n in _or_names(node.value)]
-    if not union:
-        raise ValueError("get_residue_starts: union of change masks not found")
-    # chains: np.where(<decrement> | <chain change>)
-    f = _func(cha, "get_chain_starts")
-    cfields = _change_fields(f)
-    # the residue ID test: `array.X[1:] < array.X[:-1]` (or the mirrored `>`) -> "decrease:X"; a test on np.diff(X)
-    # is reported as "diff:X:<op>:<bound>" (int64 differences wrap: obligation fails)
-    dec = {}
-    diff_of = {}
-    for node in ast.walk(f):
-        if not (isinstance(node, ast.Assign) and isinstance(node.targets[0], ast.Name)):
-            continue
-        val = node.value
-        if isinstance(val, ast.Call) and ast.unparse(val.func) == "np.diff" and isinstance(val.args[0], ast.Attribute):
-            diff_of[node.targets[0].id] = val.args[0].attr
-        if isinstance(val, ast.Compare) and len(val.ops) == 1:
-            l, r = val.left, val.comparators[0]
-            op = type(val.ops[0]).__name__
-            if isinstance(l, ast.Name) and l.id in diff_of:
-                dec[node.targets[0].id] = "diff:" + diff_of[l.id] + ":" + op + ":" + ast.unparse(r)
-            elif op in ("Lt", "Gt") and all(isinstance(x, ast.Subscript) and isinstance(x.value, ast.Attribute) for x in (l, r)) \
-                    and l.value.attr == r.value.attr:
-                sl = (ast.unparse(l.slice), ast.unparse(r.slice))
-                if (op, sl) in (("Lt", ("1:", ":-1")), ("Gt", (":-1", "1:"))):
-                    dec[node.targets[0].id] = "decrease:" + l.value.attr
-                elif (op, sl) in (("Gt", ("1:", ":-1")), ("Lt", (":-1", "1:"))):
-                    dec[node.targets[0].id] = "increase:" + l.value.attr
-                else:
-                    raise ValueError(f"get_chain_starts: unexpected shifted comparison {ast.unparse(node)}")
-    if not dec:
-        raise ValueError("get_chain_starts: res_id decrement test not found")
-    cunion = None
-    for node in ast.walk(f):
-        if isinstance(node, ast.BinOp) and isinstance(node.op, ast.BitOr):
-            names = _or_names(node)
-            cunion = [dec[n] if n in dec else cfields[n] for n in names]
-    if not cunion:
-        raise ValueError("get_chain_starts: union of masks not found")
-    # both: the empty-array early return, evaluated for add_exclusive_stop = False / True
-    import numpy as _np
-    empties = []
-    for tree, name in ((res, "get_residue_starts"), (cha, "get_chain_starts")):
-        f = _func(tree, name)
-        got = None
-        for node in f.body:
-            if isinstance(node, ast.If) and "array_length() == 0" in ast.unparse(node.test):
-                ret = node.body[-1]
-                if isinstance(ret, ast.Return) and len(node.body) == 1:
-                    code = compile(ast.Expression(ret.value), name, "eval")
-                    got = tuple([int(x) for x in eval(code, {"np": _np, f.args.args[1].arg: flag})]  # noqa: S307
-                                for flag in (False, True))
-        if got is None:
-            raise ValueError(f"{name}: empty-array early return not found")
-        empties.append(got)
-    # segments: searchsorted sides, the "- 1", and the two guards of each index function
-    sides = []
-    guards = []
-    for name in ("get_segment_masks", "get_segment_starts_for", "get_segment_positions"):
-        f = _func(seg, name)
-        n_calls = 0
-        for node in ast.walk(f):
-            if isinstance(node, ast.BinOp) and isinstance(node.op, ast.Sub) and isinstance(node.left, ast.Call) \
-                    and ast.unparse(node.left.func) == "np.searchsorted":
-                kw = {k.arg: ast.unparse(k.value).strip("'\"") for k in node.left.keywords}
-                sides.append((name, kw.get("side", "left"), ast.unparse(node.right)))
-                n_calls += 1
-        if n_calls != 1:
-            raise ValueError(f"{name}: expected exactly one `np.searchsorted(...) - k`")
-        g = []
-        segdefs = {n.name: n for n in seg.body if isinstance(n, ast.FunctionDef)}
-
-        def collect(body, subst, assigned_outer):
-            """guards of a statement list; a call of a module-private helper as a statement is followed once, its
-            parameters standing for the caller's arguments (structural: the helper is found by what the caller calls)"""
-            assigned = dict(assigned_outer)
-            cmp_of = {}
-            for n in body:
-                if isinstance(n, ast.Assign) and isinstance(n.targets[0], ast.Name):
-                    assigned[n.targets[0].id] = ast.unparse(n.value)
-                    if isinstance(n.value, ast.Compare):
-                        cmp_of[n.targets[0].id] = n.value
-            for node in body:
-                if isinstance(node, ast.Expr) and isinstance(node.value, ast.Call) and isinstance(node.value.func, ast.Name) \
-                        and node.value.func.id.startswith("_") and node.value.func.id in segdefs:
-                    h = segdefs[node.value.func.id]
-                    hp = [a.arg for a in h.args.args]
-                    sub = {}
-                    for pn, arg in zip(hp, node.value.args):
-                        u = ast.unparse(arg)
-                        sub[pn] = assigned.get(u, subst.get(u, u))
-                    collect(h.body, sub, {})
-                if isinstance(node, ast.If) and any(isinstance(x, ast.Raise) for x in node.body):
-                    exc = next(x for x in node.body if isinstance(x, ast.Raise)).exc
-                    cmp = next((x for x in ast.walk(node.test) if isinstance(x, ast.Compare)), None)
-                    if cmp is None:
-                        cmp = next((cmp_of[x.id] for x in ast.walk(node.test) if isinstance(x, ast.Name) and x.id in cmp_of), None)
-                    if cmp is None or len(cmp.ops) != 1:
-                        raise ValueError(f"{name}: unexpected guard {ast.unparse(node.test)}")
-                    rhs = ast.unparse(cmp.comparators[0])
-                    rhs = assigned.get(rhs, subst.get(rhs, rhs))
-                    g.append((type(cmp.ops[0]).__name__ + " " + rhs, exc.func.id if isinstance(exc, ast.Call) else ast.unparse(exc)))
-
-        collect(f.body, {}, {})
-        guards.append((name, g))
-    # molecules: does anything on the path molecules.py -> find_connected look at bond types?
-    mol_src = open(os.path.join(base, "molecules.py")).read()
-    mol = ast.parse(mol_src)
-    for name in ("get_molecule_indices", "get_molecule_masks", "molecule_iter"):
-        _func(mol, name)
-    type_refs = []
-    for node in ast.walk(mol):
-        if isinstance(node, ast.Attribute) and isinstance(node.value, ast.Name) and node.value.id == "BondType":
-            type_refs.append("BondType." + node.attr)
-        if isinstance(node, ast.Subscript) and ast.unparse(node.slice).replace(" ", "") in (":,2", "...,2"):
-            type_refs.append("column:" + ast.unparse(node).replace('"', "'"))
-        if isinstance(node, ast.Call) and ast.unparse(node.func).endswith(("remove_bonds", "remove_bonds_to", "remove_bond")):
-            type_refs.append("call:" + ast.unparse(node.func))
+    mol = ast.parse(open(os.path.join(base, "molecules.py")).read())
     pyx = open(os.path.join(base, "bonds.pyx")).read()
     import re as _re
-    pyx_refs = []
-    for fname in ("find_connected", "_find_connected"):
-        m = _re.search(r"^(?:def|cdef)\s+" + fname + r"\(.*?(?=^(?:def|cdef|class|@)\s)", pyx, _re.S | _re.M)
+    import numpy as _np
+
+    problems = []          # sub-extractions that did not recognise the source: reported through a failing NAMED obligation
+    try:
+        # residues: the mask that is turned into indices is a union of change masks
+        f = _func(res, "get_residue_starts")
+        fields = _change_fields(f)
+        union = None
+        for node in ast.walk(f):
+            if isinstance(node, ast.Assign) and isinstance(node.value, ast.BinOp) and isinstance(node.value.op, ast.BitOr):
+                union = [fields[n] for n in _or_names(node.value)]
+        if not union:
+            raise ValueError("get_residue_starts: union of change masks not found")
+    except Exception as e:  # noqa: BLE001  (shape not recognised -> sentinel -> the Lean obligation on this table fails)
+        problems.append("res: " + type(e).__name__ + ": " + str(e)[:120])
+        union = ["<unrecognised>"]
+    try:
+        # chains: np.where(<decrement> | <chain change>)
+        f = _func(cha, "get_chain_starts")
+        cfields = _change_fields(f)
+        # the residue ID test: `array.X[1:] < array.X[:-1]` (or the mirrored `>`) -> "decrease:X"; a test on np.diff(X)
+        # is reported as "diff:X:<op>:<bound>" (int64 differences wrap: obligation fails)
+        dec = {}
+        diff_of = {}
+        for node in ast.walk(f):
+            if not (isinstance(node, ast.Assign) and isinstance(node.targets[0], ast.Name)):
+                continue
+            val = node.value
+            if isinstance(val, ast.Call) and ast.unparse(val.func) == "np.diff" and isinstance(val.args[0], ast.Attribute):
+                diff_of[node.targets[0].id] = val.args[0].attr
+            if isinstance(val, ast.Compare) and len(val.ops) == 1:
+                l, r = val.left, val.comparators[0]
+                op = type(val.ops[0]).__name__
+                if isinstance(l, ast.Name) and l.id in diff_of:
+                    dec[node.targets[0].id] = "diff:" + diff_of[l.id] + ":" + op + ":" + ast.unparse(r)
+                elif op in ("Lt", "Gt") and all(isinstance(x, ast.Subscript) and isinstance(x.value, ast.Attribute) for x in (l, r)) \
+                        and l.value.attr == r.value.attr:
+                    sl = (ast.unparse(l.slice), ast.unparse(r.slice))
+                    if (op, sl) in (("Lt", ("1:", ":-1")), ("Gt", (":-1", "1:"))):
+                        dec[node.targets[0].id] = "decrease:" + l.value.attr
+                    elif (op, sl) in (("Gt", ("1:", ":-1")), ("Lt", (":-1", "1:"))):
+                        dec[node.targets[0].id] = "increase:" + l.value.attr
+                    else:
+                        raise ValueError(f"get_chain_starts: unexpected shifted comparison {ast.unparse(node)}")
+        if not dec:
+            raise ValueError("get_chain_starts: res_id decrement test not found")
+        cunion = None
+        for node in ast.walk(f):
+            if isinstance(node, ast.BinOp) and isinstance(node.op, ast.BitOr):
+                names = _or_names(node)
+                cunion = [dec[n] if n in dec else cfields[n] for n in names]
+        if not cunion:
+            raise ValueError("get_chain_starts: union of masks not found")
+    except Exception as e:  # noqa: BLE001  (shape not recognised -> sentinel -> the Lean obligation on this table fails)
+        problems.append("cha: " + type(e).__name__ + ": " + str(e)[:120])
+        cunion = ["<unrecognised>"]
+    try:
+        # both: the empty-array early return, evaluated for add_exclusive_stop = False / True
+        import numpy as _np
+        empties = []
+        for tree, name in ((res, "get_residue_starts"), (cha, "get_chain_starts")):
+            f = _func(tree, name)
+            got = None
+            for node in f.body:
+                if isinstance(node, ast.If) and "array_length() == 0" in ast.unparse(node.test):
+                    # the guarded block is run as a tiny function of the flag (structural: whatever statements it has)
+                    flag = f.args.args[1].arg
+                    fdef = ast.FunctionDef(name="_empty_case", args=ast.arguments(posonlyargs=[], args=[ast.arg(arg=flag), ast.arg(arg="np"), ast.arg(arg="array")],
+                                           kwonlyargs=[], kw_defaults=[], defaults=[]), body=node.body, decorator_list=[], type_params=[])
+                    ns = {}
+                    exec(compile(ast.fix_missing_locations(ast.Module(body=[fdef], type_ignores=[])), name, "exec"), ns)  # noqa: S102
+
+                    class _Empty:
+                        def array_length(self):
+                            return 0
+                    got = tuple(tuple(int(x) for x in ns["_empty_case"](v, _np, _Empty())) for v in (False, True))
+            if got is None:
+                raise ValueError(f"{name}: empty-array early return not found")
+            empties.append(got)
+    except Exception as e:  # noqa: BLE001  (shape not recognised -> sentinel -> the Lean obligation on this table fails)
+        problems.append("emp: " + type(e).__name__ + ": " + str(e)[:120])
+        empties = [((999,), (999,)), ((999,), (999,))]
+    try:
+        # segments: searchsorted sides, the "- 1", and the two guards of each index function
+        sides = []
+        guards = []
+        for name in ("get_segment_masks", "get_segment_starts_for", "get_segment_positions"):
+            f = _func(seg, name)
+            n_calls = 0
+            for node in ast.walk(f):
+                if isinstance(node, ast.BinOp) and isinstance(node.op, ast.Sub) and isinstance(node.left, ast.Call) \
+                        and ast.unparse(node.left.func) == "np.searchsorted":
+                    kw = {k.arg: ast.unparse(k.value).strip("'\"") for k in node.left.keywords}
+                    sides.append((name, kw.get("side", "left"), ast.unparse(node.right)))
+                    n_calls += 1
+            if n_calls != 1:
+                raise ValueError(f"{name}: expected exactly one `np.searchsorted(...) - k`")
+            g = []
+            segdefs = {n.name: n for n in seg.body if isinstance(n, ast.FunctionDef)}
+
+            def collect(body, subst, assigned_outer):
+                """guards of a statement list; a call of a module-private helper as a statement is followed once, its
+                parameters standing for the caller's arguments (structural: the helper is found by what the caller calls)"""
+                assigned = dict(assigned_outer)
+                cmp_of = {}
+                for n in body:
+                    if isinstance(n, ast.Assign) and isinstance(n.targets[0], ast.Name):
+                        assigned[n.targets[0].id] = ast.unparse(n.value)
+                        if isinstance(n.value, ast.Compare):
+                            cmp_of[n.targets[0].id] = n.value
+                for node in body:
+                    if isinstance(node, ast.Expr) and isinstance(node.value, ast.Call) and isinstance(node.value.func, ast.Name) \
+                            and node.value.func.id.startswith("_") and node.value.func.id in segdefs:
+                        h = segdefs[node.value.func.id]
+                        hp = [a.arg for a in h.args.args]
+                        sub = {}
+                        for pn, arg in zip(hp, node.value.args):
+                            u = ast.unparse(arg)
+                            sub[pn] = assigned.get(u, subst.get(u, u))
+                        collect(h.body, sub, {})
+                    if isinstance(node, ast.If) and any(isinstance(x, ast.Raise) for x in node.body):
+                        exc = next(x for x in node.body if isinstance(x, ast.Raise)).exc
+                        cmp = next((x for x in ast.walk(node.test) if isinstance(x, ast.Compare)), None)
+                        if cmp is None:
+                            cmp = next((cmp_of[x.id] for x in ast.walk(node.test) if isinstance(x, ast.Name) and x.id in cmp_of), None)
+                        if cmp is None or len(cmp.ops) != 1:
+                            raise ValueError(f"{name}: unexpected guard {ast.unparse(node.test)}")
+                        rhs = ast.unparse(cmp.comparators[0])
+                        rhs = assigned.get(rhs, subst.get(rhs, rhs))
+                        g.append((type(cmp.ops[0]).__name__ + " " + rhs, exc.func.id if isinstance(exc, ast.Call) else ast.unparse(exc)))
+
+            collect(f.body, {}, {})
+            guards.append((name, g))
+    except Exception as e:  # noqa: BLE001  (shape not recognised -> sentinel -> the Lean obligation on this table fails)
+        problems.append("seg: " + type(e).__name__ + ": " + str(e)[:120])
+        sides, guards = [("<unrecognised>", "", "")], []
+    try:
+        # molecules: does anything on the path molecules.py -> find_connected look at bond types?
+        for name in ("get_molecule_indices", "get_molecule_masks", "molecule_iter"):
+            _func(mol, name)
+        type_refs = []
+        for node in ast.walk(mol):
+            if isinstance(node, ast.Attribute) and isinstance(node.value, ast.Name) and node.value.id == "BondType":
+                type_refs.append("BondType." + node.attr)
+            if isinstance(node, ast.Subscript) and ast.unparse(node.slice).replace(" ", "") in (":,2", "...,2"):
+                type_refs.append("column:" + ast.unparse(node).replace('"', "'"))
+            if isinstance(node, ast.Call) and ast.unparse(node.func).endswith(("remove_bonds", "remove_bonds_to", "remove_bond")):
+                type_refs.append("call:" + ast.unparse(node.func))
+        pyx_refs = []
+        for fname in ("find_connected", "_find_connected"):
+            m = _re.search(r"^(?:def|cdef)\s+" + fname + r"\(.*?(?=^(?:def|cdef|class|@)\s)", pyx, _re.S | _re.M)
+            if not m:
+                raise ValueError(f"bonds.pyx: {fname} not found")
+            code = _re.sub(r'"""(.*?)"""', "", m.group(0), flags=_re.S)
+            code = "\n".join(line.split("#")[0] for line in code.splitlines())
+            pyx_refs += [fname + ":" + x for x in _re.findall(r"BondType\.\w+|bond_types?\w*", code)]
+            if fname == "find_connected":
+                g = _re.search(r"^\s*(\w+)\s*,\s*(\w+)\s*=\s*bond_list\.get_all_bonds\(\)", code, _re.M)
+                if not g:
+                    raise ValueError("find_connected: `<table>, <types> = bond_list.get_all_bonds()` not found")
+                if g.group(2) != "_" and _re.search(r"\b" + g.group(2) + r"\b", code[g.end():]):
+                    pyx_refs.append("find_connected:uses-type-table:" + g.group(2))
+    except Exception as e:  # noqa: BLE001  (shape not recognised -> sentinel -> the Lean obligation on this table fails)
+        problems.append("mol: " + type(e).__name__ + ": " + str(e)[:120])
+        type_refs, pyx_refs = ["<unrecognised>"], ["<unrecognised>"]
+    try:
+        # ---- tie pass 7: signatures (defaults), normalised bodies, constants of the starts construction
+        sigs, bodies = [], []
+        module_state = []
+        PUB = {"residues.py": (res, ["get_residue_starts", "apply_residue_wise", "spread_residue_wise", "get_residue_masks",
+                                      "get_residue_starts_for", "get_residue_positions", "get_residues", "get_residue_count", "residue_iter"]),
+               "chains.py": (cha, ["get_chain_starts", "apply_chain_wise", "spread_chain_wise", "get_chain_masks",
+                                    "get_chain_starts_for", "get_chain_positions", "get_chains", "get_chain_count", "chain_iter"]),
+               "segments.py": (seg, ["apply_segment_wise", "spread_segment_wise", "get_segment_masks", "get_segment_starts_for",
+                                     "get_segment_positions", "segment_iter"]),
+               "molecules.py": (mol, ["get_molecule_indices", "get_molecule_masks", "molecule_iter"])}
+        for fn_file, (tree, names) in PUB.items():
+            for name in names:
+                _func(tree, name)
+            hmap, defs = _private_helpers(tree, names)
+            def nb(fd):
+                try:
+                    return _norm_body(fd, hmap)
+                except Exception as e:  # noqa: BLE001
+                    return [f"<unrecognised: {type(e).__name__}: {str(e)[:80]}>"]
+            for name in names:
+                sigs.append(_signature(defs[name]))
+                bodies.append((name, nb(defs[name])))
+            for hname, alias in hmap.items():       # private helpers: part of the modelled code, under positional names
+                sigs.append(fn_file + ":" + _signature(defs[hname], alias))
+                bodies.append((fn_file + ":" + alias, nb(defs[hname])))
+            for node in tree.body:        # module-level state (caches, tables) next to the modelled functions
+                if isinstance(node, (ast.Assign, ast.AnnAssign)):
+                    tg = node.targets[0] if isinstance(node, ast.Assign) else node.target
+                    if isinstance(tg, ast.Name) and tg.id.startswith("__"):
+                        continue
+                    val = node.value
+                    if isinstance(tg, ast.Name) and isinstance(val, ast.Constant) and isinstance(val.value, str):
+                        # a text constant that only feeds error messages is not behaviour
+                        uses = [n for n in ast.walk(tree) if isinstance(n, ast.Name) and n.id == tg.id and isinstance(n.ctx, ast.Load)]
+                        in_raise = {id(n) for r in ast.walk(tree) if isinstance(r, ast.Raise) for n in ast.walk(r)}
+                        if all(id(u) in in_raise for u in uses):
+                            continue
+                    module_state.append(fn_file + ": " + ast.unparse(node)[:80])
+        m = _re.search(r"^def find_connected\((.*?)\):", pyx, _re.M)
         if not m:
-            raise ValueError(f"bonds.pyx: {fname} not found")
-        code = _re.sub(r'"""(.*?)"""', "", m.group(0), flags=_re.S)
-        code = "\n".join(line.split("#")[0] for line in code.splitlines())
-        pyx_refs += [fname + ":" + x for x in _re.findall(r"BondType\.\w+|bond_types?\w*", code)]
-        if fname == "find_connected":
-            g = _re.search(r"^\s*(\w+)\s*,\s*(\w+)\s*=\s*bond_list\.get_all_bonds\(\)", code, _re.M)
-            if not g:
-                raise ValueError("find_connected: `<table>, <types> = bond_list.get_all_bonds()` not found")
-            if g.group(2) != "_" and _re.search(r"\b" + g.group(2) + r"\b", code[g.end():]):
-                pyx_refs.append("find_connected:uses-type-table:" + g.group(2))
-    # ---- tie pass 7: signatures (defaults), normalised bodies, constants of the starts construction
-    sigs, bodies = [], []
-    PUB = {"residues.py": (res, ["get_residue_starts", "apply_residue_wise", "spread_residue_wise", "get_residue_masks",
-                                  "get_residue_starts_for", "get_residue_positions", "get_residues", "get_residue_count", "residue_iter"]),
-           "chains.py": (cha, ["get_chain_starts", "apply_chain_wise", "spread_chain_wise", "get_chain_masks",
-                                "get_chain_starts_for", "get_chain_positions", "get_chains", "get_chain_count", "chain_iter"]),
-           "segments.py": (seg, ["apply_segment_wise", "spread_segment_wise", "get_segment_masks", "get_segment_starts_for",
-                                 "get_segment_positions", "segment_iter"]),
-           "molecules.py": (mol, ["get_molecule_indices", "get_molecule_masks", "molecule_iter"])}
-    for fn_file, (tree, names) in PUB.items():
-        for name in names:
-            _func(tree, name)
-        hmap, defs = _private_helpers(tree, names)
-        for name in names:
-            sigs.append(_signature(defs[name]))
-            bodies.append((name, _norm_body(defs[name], hmap)))
-        for hname, alias in hmap.items():       # private helpers: part of the modelled code, under positional names
-            sigs.append(fn_file + ":" + _signature(defs[hname], alias))
-            bodies.append((fn_file + ":" + alias, _norm_body(defs[hname], hmap)))
-        for node in tree.body:        # module-level state (caches, tables) next to the modelled functions
-            if isinstance(node, (ast.Assign, ast.AnnAssign)):
-                tg = node.targets[0] if isinstance(node, ast.Assign) else node.target
-                if not (isinstance(tg, ast.Name) and tg.id.startswith("__")):
-                    raise ValueError(f"{fn_file}: module-level assignment {ast.unparse(node)[:60]}")
-    m = _re.search(r"^def find_connected\((.*?)\):", pyx, _re.M)
-    if not m:
-        raise ValueError("bonds.pyx: signature of find_connected not found")
-    sigs.append("find_connected(" + _re.sub(r"\s+", " ", m.group(1)) + ")")
-    pyx_bodies = [("find_connected", _pyx_function(pyx, "find_connected")), ("_find_connected", _pyx_function(pyx, "_find_connected")),
-                  ("BondList.get_all_bonds", _pyx_method(pyx, "BondList", "get_all_bonds"))]
-    # constants of `np.concatenate(([0], np.where(mask)[0] + 1, [array.array_length()]))`
-    builds = []
-    for tree, name in ((res, "get_residue_starts"), (cha, "get_chain_starts")):
-        fdef = _func(tree, name)
-        off = idx0 = None
-        for node in ast.walk(fdef):
-            if isinstance(node, ast.Assign) and isinstance(node.value, ast.BinOp) and isinstance(node.value.op, ast.Add) \
-                    and isinstance(node.value.left, ast.Subscript) and ast.unparse(node.value.left.value).startswith("np.where("):
-                off = ast.literal_eval(node.value.right)
-                idx0 = ast.literal_eval(node.value.left.slice)
-                svar = node.targets[0].id
-        if off is None:
-            raise ValueError(f"{name}: `np.where(mask)[k] + c` not found")
-        cats = []
-        for node in ast.walk(fdef):
-            if isinstance(node, ast.Return) and isinstance(node.value, ast.Call) and ast.unparse(node.value.func) == "np.concatenate":
-                tup = node.value.args[0]
-                cats.append([("S" if ast.unparse(e) == svar else ast.unparse(e)) for e in tup.elts])
-        if sorted(map(len, cats)) != [2, 3]:
-            raise ValueError(f"{name}: the two np.concatenate returns not found")
-        with_stop = next(c for c in cats if len(c) == 3)
-        without = next(c for c in cats if len(c) == 2)
-        if with_stop[:2] != without or without[1] != "S":
-            raise ValueError(f"{name}: unexpected concatenation {cats}")
-        first = ast.literal_eval(without[0])
-        if not (isinstance(first, list) and len(first) == 1):
-            raise ValueError(f"{name}: unexpected first element {without[0]}")
-        builds.append((name, first[0], idx0, off, with_stop[2]))
+            raise ValueError("bonds.pyx: signature of find_connected not found")
+        sigs.append("find_connected(" + _re.sub(r"\s+", " ", m.group(1)) + ")")
+        pyx_bodies = [("find_connected", _pyx_function(pyx, "find_connected")), ("_find_connected", _pyx_function(pyx, "_find_connected")),
+                      ("BondList.get_all_bonds", _pyx_method(pyx, "BondList", "get_all_bonds"))]
+    except Exception as e:  # noqa: BLE001  (shape not recognised -> sentinel -> the Lean obligation on this table fails)
+        problems.append("p7: " + type(e).__name__ + ": " + str(e)[:120])
+        sigs, bodies, pyx_bodies, module_state = ["<unrecognised>"], [], [], ["<unrecognised>"]
+    try:
+        # constants of `np.concatenate(([0], np.where(mask)[0] + 1, [array.array_length()]))`
+        builds = []
+        for tree, name in ((res, "get_residue_starts"), (cha, "get_chain_starts")):
+            fdef = _func(tree, name)
+            off = idx0 = None
+            for node in ast.walk(fdef):
+                if isinstance(node, ast.Assign) and isinstance(node.value, ast.BinOp) and isinstance(node.value.op, ast.Add) \
+                        and isinstance(node.value.left, ast.Subscript) and ast.unparse(node.value.left.value).startswith("np.where("):
+                    off = ast.literal_eval(node.value.right)
+                    idx0 = ast.literal_eval(node.value.left.slice)
+                    svar = node.targets[0].id
+            if off is None:
+                raise ValueError(f"{name}: `np.where(mask)[k] + c` not found")
+            cats = []
+            for node in ast.walk(fdef):
+                if isinstance(node, ast.Return) and isinstance(node.value, ast.Call) and ast.unparse(node.value.func) == "np.concatenate":
+                    tup = node.value.args[0]
+                    cats.append([("S" if ast.unparse(e) == svar else ast.unparse(e)) for e in tup.elts])
+            if sorted(map(len, cats)) != [2, 3]:
+                raise ValueError(f"{name}: the two np.concatenate returns not found")
+            with_stop = next(c for c in cats if len(c) == 3)
+            without = next(c for c in cats if len(c) == 2)
+            if with_stop[:2] != without or without[1] != "S":
+                raise ValueError(f"{name}: unexpected concatenation {cats}")
+            first = ast.literal_eval(without[0])
+            if not (isinstance(first, list) and len(first) == 1):
+                raise ValueError(f"{name}: unexpected first element {without[0]}")
+            builds.append((name, first[0], idx0, off, with_stop[2]))
+    except Exception as e:  # noqa: BLE001  (shape not recognised -> sentinel -> the Lean obligation on this table fails)
+        problems.append("build: " + type(e).__name__ + ": " + str(e)[:120])
+        builds = []
     body = [
         "/- REGENERATED on every run by harness/props/c17.py from structure/residues.py, chains.py, segments.py. Do not edit. -/",
         "namespace BiotiteModel.Gen.C17",
@@ -520,6 +569,10 @@ def gen_lean():
         f"def moleculeBondTypeRefs : List String := {_lean_strs(type_refs)}",
         "/-- every mention of bond types in bonds.pyx find_connected / _find_connected. -/",
         f"def connectedBondTypeRefs : List String := {_lean_strs(pyx_refs)}",
+        "/-- sub-extractions that did not recognise the shape of the source (their tables hold sentinels). -/",
+        f"def extractProblems : List String := {_lean_strs(problems)}",
+        "/-- module-level assignments next to the modelled functions, other than dunders and message-only texts. -/",
+        f"def moduleState : List String := {_lean_strs(module_state)}",
         "/-- signatures (parameter order and default values) of the anchored public functions. -/",
         f"def signatures : List String := {_lean_strs(sigs)}",
         "/-- (function, first start, index into np.where(..), offset added, expression of the exclusive stop). -/",
